@@ -368,6 +368,40 @@ pub fn check(start: Start, b: &[u8], ctx: &mut Ctx) -> Result<(), Failure> {
             judged += 1;
         }
     }
+    // IpHeaders::read (LimitedReader): errors bounded by the IP length field, judged on a buffer that
+    // holds exactly the announced packet
+    if start == Start::Ip && b.len() >= 6 {
+        let announced = match b[0] >> 4 {
+            4 => Some((u16::from_be_bytes([b[2], b[3]]) as usize).max(((b[0] & 0xf) as usize) * 4)),
+            6 => Some(40 + u16::from_be_bytes([b[4], b[5]]) as usize),
+            _ => None,
+        };
+        if let Some(a) = announced.filter(|a| *a <= b.len() && *a >= 20) {
+            let bb = &b[..a];
+            let r = refdec::decode(Start::Ip, bb, false);
+            let in_ip = r.faults.first().map(|f| !matches!(f.at, "udp" | "tcp" | "icmpv4" | "icmpv6")).unwrap_or(false);
+            if in_ip && struct_stop_index(&r).is_none() {
+                let mut c = std::io::Cursor::new(bb);
+                if let Err(err::ip::HeaderReadError::Len(l)) = IpHeaders::read(&mut c) {
+                    let mut o = obs_len(&l);
+                    // the reader asks for partial reads (first 2 bytes of an extension header, then the
+                    // rest): any requirement between len and the full requirement is a true one
+                    if let (ObsErr::Len { required_len, len, .. }, Some(f)) = (&mut o, r.faults.first()) {
+                        if let refdec::FK::Short { need, .. } = &f.kind {
+                            if let Some(mx) = need.iter().max() {
+                                if *required_len > *len && *required_len <= *mx {
+                                    *required_len = *mx;
+                                }
+                            }
+                        }
+                    }
+                    judge("IpHeaders::read", &o, &r, bb, start, ctx)?;
+                    judged += 1;
+                    ctx.class("read:limited-reader-len-error");
+                }
+            }
+        }
+    }
     if judged > 0 {
         ctx.class("has-error");
     }
